@@ -19,6 +19,7 @@ From PowHsm Require Import Proofs.SrcLiftGate.
 From PowHsm Require Import Proofs.SrcEquivGateV1M.
 From PowHsm Require Import Proofs.SrcLiftGate2.
 From PowHsm Require Import Proofs.SrcEquivSendCommandM.
+From PowHsm Require Import Proofs.SrcLiftGateV1.
 Open Scope N_scope.
 
 (* closed check on the generated except-ladders: every v5 handler maps a link error to (flag set, device error) and a timeout to (flag untouched, device error) *)
@@ -355,5 +356,26 @@ Theorem C11_source_send_command_is_the_primitive :
          srcm_HSM2Dongle___send_command (VObj cls fields) (VInt (Z.of_N cmd)) (VBytes data) timeout w =
          MV.m_send_command (VInt (Z.of_N cmd)) (VBytes data) w.
 Proof. exact (@srcm_send_command_is_primitive). Qed.
+
+(* legacy mode: a link fault at any exchange is answered with the legacy device-error code, is the last event, flag iff write/read error - on the translated request path *)
+Theorem C11_source_link_fault_reply_v1 :
+  forall (keccak : bytes -> bytes) (kind : dongle_kind) (init : pm pv)
+           (cm : string -> pv -> list pv -> pr pv) (self : pv) (request : json) 
+           (cmd : str) (req : obj) (opname : str) (op : M rtuple) (P : bytes -> resp -> bool)
+           (rcn : bool) (w : world) (n : list event) (b : bytes) (f : resp),
+         env_ok_v1 kind init cm ->
+         gate_request V1 request = GAccept cmd req ->
+         assoc_str cmd DISPATCH_V1 = Some opname ->
+         run_operation keccak kind V1 opname req = Some op ->
+         is_handler keccak kind V1 P rcn op ->
+         comm_issue w = false ->
+         news w (snd (op w)) n ->
+         In (Apdu b f) n ->
+         P b f = true ->
+         srcm_HSM1ProtocolLedger____internal_handle_request cm init self (of_json request) w =
+         (XOk (of_json (error_reply (DEVICE V1))), snd (op w)) /\
+         comm_issue (snd (op w)) = is_comm_fault f /\
+         (exists pre : list event, n = pre ++ [Apdu b f] /\ clean P pre).
+Proof. exact (@src_link_fault_reply_v1). Qed.
 
 Example C11_nonvacuous : True. Proof. exact I. Qed. (* concrete three-request lifetimes closed by vm_compute in Proofs/C11.v, Module Examples *)
